@@ -848,6 +848,36 @@ pub fn eval(rule: &Value, data: &Value, tr: &mut Trace) -> Exp {
     if is_lazy(op) {
         return eval_lazy(op, &args, data, tr);
     }
+    // `var` with a default: whether the default expression is evaluated when the key is present is
+    // not pinned by any property (C04 says "at most once"); R decides only when it makes no difference
+    if op == "var" && args.len() == 2 {
+        let key = match eval(args[0], data, tr) {
+            Exp::Val(v) => v,
+            other => return other,
+        };
+        let mut scratch = Trace::default();
+        let dflt = eval(args[1], data, &mut scratch);
+        let silent = scratch.lines.is_empty();
+        return match lookup(data, &key) {
+            Look::Unspec => Exp::Unspec,
+            Look::Found(v) => {
+                if silent && matches!(dflt, Exp::Val(_)) {
+                    Exp::Val(v)
+                } else {
+                    // an erroring / printing / unspecified default next to a present key: either behaviour is fine
+                    Exp::Unspec
+                }
+            }
+            Look::Absent => {
+                tr.lines.extend(scratch.lines);
+                tr.values.extend(scratch.values);
+                if !scratch.order_pinned {
+                    tr.order_pinned = false;
+                }
+                dflt
+            }
+        };
+    }
     // eager: operands left to right; an error in any of them is the result
     let mut vals = Vec::with_capacity(args.len());
     let mut unspec = false;
